@@ -83,10 +83,15 @@ claim("C17", "closed-world who-may-write enumeration on request fields + call-gr
       "PARTIAL: four structural necessary conditions only — request line/host/body written only in pkg/upstream or on clones; no body consumer on the pass path; the registration-order comparator is rewrite-first only against a plain upstream and longer-path-first otherwise; the rewrite query merge appends. Routing by gorilla/mux, percent-encoding fidelity and response relay are NOT decided. Level 'other'.",
       TRUST + " Not decided: longest-prefix routing, encoding fidelity, response relay (third-party behaviour over all inputs).", "DESIGN.md §5 C17")
 
+claim("C02", "signer/verifier sibling agreement on SSA + value provenance (signed-before-emit, encrypt-before-emit) + path facts (validate-before-decode, full constant-time compare)",
+      "Structural necessary condition for all cookies/edits/secrets: the MAC covers name, value and timestamp with identical roles on both sides; compare is hmac.Equal on complete decoded signatures; every non-empty cookie value derives from SignedValue; payloads decode only from Validate's value; the joined split cookie is what is validated; serialised sessions/CSRF flow only into Encrypt and only ciphertext is stored or signed. Level 'other'.",
+      TRUST + " Not decided: the cryptography, ambiguity of unkeyed concatenation, base64 laxness, value-exact decoding over all edits.", "DESIGN.md §5 C02")
+
 for i in range(2, 21):
     pid = "C%02d" % i
     if pid not in T:
         na(pid, "check not built yet in this round (design in DESIGN.md §5); will be claimed once its rules run green and are mutant-tested")
+T.pop("C10", None)
 na("C10", "value round trip over save histories and byte sizes: no structural necessary condition that is not already owned by C02/C18/C11 (DESIGN.md §6)")
 
 
